@@ -236,6 +236,9 @@ func (d *c06Driver) runSeq(m *C06Mode, seq []*C06Frame, from int, canonical, cou
 		out := c06Feed(p, fr)
 		want, cerr := m.Want(fr.B)
 		kind, cls, ord, detail := "", "well-formed", 0, m.Link.String()
+		if _, ok := cerr.(*C06Lenient); ok {
+			cerr, cls = nil, "lenient"
+		}
 		if cerr != nil {
 			de := AsDecodeError(cerr)
 			cls, ord, detail = de.Class(), de.Ord, de.Detail+"/"+m.Link.String()
@@ -318,7 +321,7 @@ func (d *c06Driver) runSeq(m *C06Mode, seq []*C06Frame, from int, canonical, cou
 				emitted = strings.Join(p, "|")
 			}
 			f := c06Finding{
-				Class: class, Key: m.Proto + ":" + kind + ":" + name + "=>" + emitted, Desc: desc, Detail: detail, Size: len(fr.B) + 4096*k, Ord: ord,
+				Class: class, Key: class + "|" + name + "=>" + emitted, Desc: desc, Detail: detail, Size: len(fr.B) + 4096*k, Ord: ord,
 				Replay: map[string]any{"part": d.part, "mode": m.Name, "history_hex": histHex, "frame_hex": DecHex(fr.B), "frame": fr.Name(), "got": out.String(), "reference": ref},
 			}
 			if counted {
@@ -516,11 +519,51 @@ func C06Run(env *C06Env, part string, modes []C06Mode) (rule string) {
 // ---------------------------------------------------------------------------------------------
 // Reference records
 
+// C06Lenient marks a frame the property leaves open: the reference gives the record the frame
+// would warrant under the lenient reading, and the processor may emit that record or none.
+// The one case: an IPv4 total length of 0. It is below the header length, so RFC 791 calls the
+// datagram malformed, but packet sockets deliver exactly such frames for segments the NIC will
+// segment later (TSO/GSO: the kernel leaves the field 0 and the length is that of the frame), and
+// gopacket reads them that way. The header chain is in the frame and every field comes from it, so
+// neither "no phantom data" nor "taken from that same frame" is at stake.
+type C06Lenient struct{ Why string }
+
+func (l *C06Lenient) Error() string { return "lenient: " + l.Why }
+
+// c06ZeroTotLen: if the only objection to the IPv4 header is a total length of 0, returns the frame
+// with the field set to the length of the frame's IP part.
+func c06ZeroTotLen(frame []byte, link Link, err error) ([]byte, bool) {
+	de, ok := err.(*DecodeError)
+	if !ok || de.Layer != "ip4" || de.Field != "totlen" {
+		return nil, false
+	}
+	off := 0
+	if link == LinkEthernet {
+		off = 14
+	}
+	if len(frame) < off+20 || frame[off+2] != 0 || frame[off+3] != 0 || len(frame)-off > 0xffff {
+		return nil, false
+	}
+	g := append([]byte(nil), frame...)
+	n := len(frame) - off
+	g[off+2], g[off+3] = byte(n>>8), byte(n)
+	return g, true
+}
+
 func C06WantTCP(scanType string, link Link) func([]byte) (C06Rec, error) {
 	return func(frame []byte) (C06Rec, error) {
 		_, ip, tcp, err := ChainTCP(frame, link)
+		lenient := false
+		if g, ok := c06ZeroTotLen(frame, link, err); ok {
+			if _, ip, tcp, err = ChainTCP(g, link); err == nil {
+				lenient = true
+			}
+		}
 		if err != nil {
 			return nil, err
+		}
+		if lenient {
+			return C06Rec{{"scan", scanType}, {"ip", IPString(ip.Src)}, {"port", fmt.Sprint(tcp.SrcPort)}, {"flags", TCPFlagLetters(tcp.Flags)}}, &C06Lenient{"ip total length 0 (TSO convention)"}
 		}
 		return C06Rec{{"scan", scanType}, {"ip", IPString(ip.Src)}, {"port", fmt.Sprint(tcp.SrcPort)}, {"flags", TCPFlagLetters(tcp.Flags)}}, nil
 	}
@@ -529,8 +572,17 @@ func C06WantTCP(scanType string, link Link) func([]byte) (C06Rec, error) {
 func C06WantICMP(scanType string, link Link) func([]byte) (C06Rec, error) {
 	return func(frame []byte) (C06Rec, error) {
 		_, ip, ic, err := ChainICMP(frame, link)
+		lenient := false
+		if g, ok := c06ZeroTotLen(frame, link, err); ok {
+			if _, ip, ic, err = ChainICMP(g, link); err == nil {
+				lenient = true
+			}
+		}
 		if err != nil {
 			return nil, err
+		}
+		if lenient {
+			return C06Rec{{"scan", scanType}, {"ip", IPString(ip.Src)}, {"ttl", fmt.Sprint(ip.TTL)}, {"type", fmt.Sprint(ic.Type)}, {"code", fmt.Sprint(ic.Code)}}, &C06Lenient{"ip total length 0 (TSO convention)"}
 		}
 		return C06Rec{{"scan", scanType}, {"ip", IPString(ip.Src)}, {"ttl", fmt.Sprint(ip.TTL)}, {"type", fmt.Sprint(ic.Type)}, {"code", fmt.Sprint(ic.Code)}}, nil
 	}
